@@ -36,7 +36,7 @@ VARIANTS = ('alias', 'colon', 'extra-parens', 'minimal-parens', 'mix', 'semicolo
 
 class C15(Prop):
     id = 'C15'
-    rule_added = 'The unless law is also run under another sampling period x default unit. The unless law is also run under an interface-aware semantics with a random io assignment.'
+    rule_added = 'The unless law is also run under another sampling period x default unit. The unless law is also run under an interface-aware semantics with a random io assignment. 36 enumerated two-time-scale spellings (unit suffixes vs plain numbers of the default unit, keywords vs aliases; online and offline).'
     rule = ('a generated formula is printed canonically (keywords, fully parenthesised) and in variant spellings: all '
             'aliases (G F U W S O H X Y sX sY ! & | -> <->), ":" separators, redundant parentheses, parentheses '
             'dropped wherever the grammar precedence/left-associativity makes them redundant (precedence table '
